@@ -136,7 +136,7 @@ def complex_model(name, params):
             return 'I' if status[node] == 'S' else 'R'
 
         def infl(G, node, status, parameters):
-            return set(G.neighbors(node))
+            return list(G.neighbors(node))
         return rate, choice, infl, ['S', 'I', 'R'], {('S', 'I'), ('I', 'R')}
     if name == 'sis':
         tau, gamma = params
@@ -150,7 +150,7 @@ def complex_model(name, params):
             return 'I' if status[node] == 'S' else 'S'
 
         def infl(G, node, status, parameters):
-            return set(G.neighbors(node))
+            return list(G.neighbors(node))
         return rate, choice, infl, ['S', 'I'], {('S', 'I'), ('I', 'S')}
     if name == 'threshold':
         r, gamma = params
@@ -167,7 +167,7 @@ def complex_model(name, params):
             return 'I' if status[node] == 'S' else 'R'
 
         def infl(G, node, status, parameters):
-            return set(G.neighbors(node))
+            return list(G.neighbors(node))
         return rate, choice, infl, ['S', 'I', 'R'], {('S', 'I'), ('I', 'R')}
     raise ValueError(name)
 
